@@ -421,6 +421,23 @@ func (w *World) coll(s int, name []byte) (*gkvlite.Store, *gkvlite.Collection, s
 	return st, c, ""
 }
 
+func renderReads(log []memfile.Event) string {
+	var rds []string
+	for _, e := range log {
+		switch e.Kind {
+		case memfile.Read:
+			rds = append(rds, fmt.Sprintf("r%d+%d", e.Off, e.Len))
+		case memfile.Stat:
+			rds = append(rds, "s")
+		case memfile.Write:
+			rds = append(rds, fmt.Sprintf("w%d+%d", e.Off, e.Len))
+		case memfile.Trunc:
+			rds = append(rds, fmt.Sprintf("t%d", e.Off))
+		}
+	}
+	return strings.Join(rds, ",")
+}
+
 func atoi(s string) int { n, _ := strconv.Atoi(s); return n }
 
 func (w *World) setTag(tag string) {
@@ -1034,7 +1051,7 @@ func (w *World) exec(t []string) string {
 		}
 		w.rewrite = fmt.Sprintf("cstatein %s %s %s", t[1], t[2], gkvlite.VerifCacheState(c))
 		return "ok"
-	case "cget", "cmin", "cmax", "cevict":
+	case "cget", "cmin", "cmax", "cevict", "cvisit":
 		// GetItem / MinItem / MaxItem / EvictSomeItems with everything Model L predicts observed:
 		// the answer (a value is shown whenever the returned item carries one), the file reads in
 		// order, and the cached view afterwards
@@ -1059,6 +1076,32 @@ func (w *World) exec(t []string) string {
 			it, err = c.MinItem(t[3] == "1")
 		case "cmax":
 			it, err = c.MaxItem(t[3] == "1")
+		case "cvisit":
+			// cvisit S N asc|desc T W STOP: the Ex visitor, to the end (STOP = 0) or saying stop at the
+			// STOP-th item; what it was handed, with depths
+			tgt, _ := unhx(t[4])
+			stop := 0
+			if len(t) > 6 {
+				stop = atoi(t[6])
+			}
+			var seen []string
+			vis := func(i *gkvlite.Item, depth uint64) bool {
+				v := "-"
+				if i.Val != nil {
+					v = "h" + hex.EncodeToString(i.Val)
+				}
+				seen = append(seen, hex.EncodeToString(i.Key)+":"+strconv.Itoa(int(i.Priority))+":"+v+"@"+strconv.FormatUint(depth, 10))
+				return stop == 0 || len(seen) < stop
+			}
+			if t[3] == "asc" {
+				err = c.VisitItemsAscendEx(tgt, t[5] == "1", vis)
+			} else {
+				err = c.VisitItemsDescendEx(tgt, t[5] == "1", vis)
+			}
+			if err != nil {
+				return errClass(err)
+			}
+			return strings.Join(seen, ",") + " | " + renderReads(mf.Log[mark:]) + " | " + gkvlite.VerifCacheState(c)
 		case "cevict":
 			seed := 7000003 + w.cevicts
 			w.cevicts++
@@ -1086,20 +1129,7 @@ func (w *World) exec(t []string) string {
 			}
 			st.ItemDecRef(c, it)
 		}
-		var rds []string
-		for _, e := range mf.Log[mark:] {
-			switch e.Kind {
-			case memfile.Read:
-				rds = append(rds, fmt.Sprintf("r%d+%d", e.Off, e.Len))
-			case memfile.Stat:
-				rds = append(rds, "s")
-			case memfile.Write:
-				rds = append(rds, fmt.Sprintf("w%d+%d", e.Off, e.Len))
-			case memfile.Trunc:
-				rds = append(rds, fmt.Sprintf("t%d", e.Off))
-			}
-		}
-		return found + " | " + strings.Join(rds, ",") + " | " + gkvlite.VerifCacheState(c)
+		return found + " | " + renderReads(mf.Log[mark:]) + " | " + gkvlite.VerifCacheState(c)
 	case "rmark": // forget the reads made so far
 		if mf := w.files[atoi(t[1])]; mf != nil {
 			w.rmark[atoi(t[1])] = len(mf.Log)
